@@ -12,7 +12,7 @@
    transaction (the service never does). *)
 From Coq Require Import List NArith Bool.
 From KV Require Import Registry RegistryProofs.
-From KV.gen Require Import TxFacts.
+From KV.gen Require Import RegFacts.
 Import ListNotations.
 Open Scope N_scope.
 
@@ -89,10 +89,10 @@ Theorem C17_cleanup_frees : forall cfg s dt, reachable cfg s -> c_btimeout cfg <
 Proof. exact cleanup_frees. Qed.
 Print Assumptions C17_cleanup_frees.
 
-(* the same with the limits the binary ships with (generated from the source: gen/TxFacts.v) *)
+(* the same with the limits the binary ships with (generated from the source: gen/RegFacts.v) *)
 Theorem C17_shipped_cleanup_frees : forall svc peer s, reachable (shipped_config svc peer) s ->
   let cfg := shipped_config svc peer in
-  let s2 := fst (run cfg s [ETick (TxFacts.registry_default_idle_ms + 1); EStale]) in
+  let s2 := fst (run cfg s [ETick (RegFacts.registry_default_idle_ms + 1); EStale]) in
   reg s2 = [] /\ lock_ids (lk s2) = [] /\ pends s2 = [] /\
   forall c ro d, In (OBegin c ROk) (snd (step cfg s2 (EBegin c ro d))).
 Proof. exact shipped_cleanup_frees. Qed.
